@@ -410,3 +410,40 @@ Theorem C01_lookup_failure_keeps_stdin : forall cfg st prog,
   s_in (start_failed_state cfg st prog) = s_in st /\ s_out (start_failed_state cfg st prog) = [].
 Proof. exact lookup_failure_keeps_stdin. Qed.
 Print Assumptions C01_lookup_failure_keeps_stdin.
+
+From GI Require Lib.GoSem Lib.GoSemFail TsRun.SrcLib Gen.TsRunSrc TsRun.SrcFacts.
+
+(* ---- the source itself: the pure segments of runLine up to the command lookup -- the words and
+   the blank-line test; the loop over the [cond] prefixes and the ! prefix -- translated on every
+   run by harness/go2coq (Gen/TsRunSrc.v), are the model (TsRun/SrcFacts.v).  ts.parse and
+   ts.condition are oracles carried by the receiver [ts]; [parse_agrees st ts] / [cond_agrees cfg st ts]:
+   they answer as the model's tokenise / cond_eval compute (a Fatalf or an error where the model
+   has no value).  [guards_view] / [line_view] / [view_outcome]: the model's run_guards / run_line
+   read as "fail, skip the line, or run these command words with this negation". *)
+
+(* The view is the model: run_guards is view_outcome of guards_view. *)
+Theorem C01_source_view_is_run_guards : forall cfg st words,
+  run_guards cfg st words = TsRun.SrcFacts.view_outcome cfg st (TsRun.SrcFacts.guards_view cfg st words).
+Proof. exact TsRun.SrcFacts.run_guards_view. Qed.
+Print Assumptions C01_source_view_is_run_guards.
+
+(* The translated guard loop and ! test: with fuel for one iteration per word, never a panic,
+   never out of fuel, and the decision is the model's. *)
+Theorem C01_source_guards : forall cfg st ts, TsRun.SrcFacts.cond_agrees cfg st ts ->
+  forall fuel words, words <> [] -> length words + 1 <= fuel ->
+  exists o, TsRunSrc.src_TestScript_runLine_guards fuel ts words = GoSem.Ok o /\
+            TsRun.SrcFacts.view_of_guards o = Some (TsRun.SrcFacts.guards_view cfg st words).
+Proof. exact TsRun.SrcFacts.src_guards_eq. Qed.
+Print Assumptions C01_source_guards.
+
+(* runLine from the tokenizer to the command lookup, by the translated segments in source order:
+   for every line it decides what the model's run_line decides. *)
+Theorem C01_source_run_line_prefix : forall cfg st ts,
+  TsRun.SrcFacts.parse_agrees st ts -> TsRun.SrcFacts.cond_agrees cfg st ts ->
+  forall fuel line,
+  (forall ws, tokenise (s_env st) line = Some ws -> length ws + 1 <= fuel) ->
+  exists o, TsRun.SrcFacts.src_run_line_prefix ts fuel line = GoSem.Ok o /\
+            TsRun.SrcFacts.view_of_guards o = Some (TsRun.SrcFacts.line_view cfg st line) /\
+            run_line cfg st line = TsRun.SrcFacts.view_outcome cfg st (TsRun.SrcFacts.line_view cfg st line).
+Proof. exact TsRun.SrcFacts.src_run_line_prefix_eq. Qed.
+Print Assumptions C01_source_run_line_prefix.
